@@ -186,6 +186,7 @@ func main() {
 		}
 	}
 	eng.lemmaObligations()
+	eng.callersObligations()
 	rep.GenSecs = time.Since(t1).Seconds()
 
 	// filter by tags
@@ -195,9 +196,35 @@ func main() {
 			tagw = append(tagw, t)
 		}
 	}
+	match := func(t string) bool {
+		for _, w := range tagw {
+			if t == w || strings.HasPrefix(t, w+".") || strings.HasPrefix(t, w+"-") {
+				return true
+			}
+		}
+		return false
+	}
+	// functions with at least one ensures clause carrying a wanted tag: their supporting obligations
+	// (loop invariants, variants, callee preconditions) belong to the property as well
+	fnWanted := map[string]bool{}
+	for _, o := range eng.obls {
+		if o.Kind == "ensures" {
+			for _, t := range o.Tags {
+				if match(t) {
+					fnWanted[o.Func] = true
+				}
+			}
+		}
+	}
 	var sel []*Obligation
 	for _, o := range eng.obls {
 		keepIt := len(tagw) == 0
+		switch o.Kind {
+		case "invariant-entry", "invariant-preserved", "decreases", "callee-precondition":
+			if fnWanted[o.Func] {
+				keepIt = true
+			}
+		}
 		for _, t := range o.Tags {
 			for _, w := range tagw {
 				if t == w || strings.HasPrefix(t, w+".") || strings.HasPrefix(t, w+"-") {
@@ -318,6 +345,68 @@ func (e *Engine) lemmaObligations() {
 		o := &Obligation{Func: "lemma " + l.Name, Kind: "lemma", Tags: l.Tags, Clause: l.Src, Where: fmt.Sprintf("%s:%d", l.File, l.Line), Expect: "unsat"}
 		o.Query = e.queryPrefix(st) + "(assert (not " + v.T + "))\n"
 		o.ID = fmt.Sprintf("lemma/%s/%d", l.Name, len(e.obls)+1)
+		e.obls = append(e.obls, o)
+	}
+}
+
+// callersObligations: syntactic call-graph obligations ("only F may call G") over all non-test repo functions.
+func (e *Engine) callersObligations() {
+	for _, r := range e.specs.Callers {
+		var sites []string
+		nsites := 0
+		for fn := range ssautil.AllFunctions(e.prog) {
+			if fn.Blocks == nil || !e.isRepoFunc(fn) {
+				continue
+			}
+			pk := fn.Package()
+			if pk == nil && fn.Parent() != nil {
+				pk = fn.Parent().Package()
+			}
+			if pk != nil && (strings.HasSuffix(pk.Pkg.Path(), "/testonly") || strings.Contains(pk.Pkg.Path(), "/cmd/loadtest")) {
+				continue
+			}
+			for _, b := range fn.Blocks {
+				for _, in := range b.Instrs {
+					ci, ok := in.(ssa.CallInstruction)
+					if !ok {
+						continue
+					}
+					cc := ci.Common()
+					hit := false
+					if cc.IsInvoke() {
+						for _, k := range e.ifaceKeys(cc) {
+							if k == r.Callee {
+								hit = true
+							}
+						}
+					} else if sc := cc.StaticCallee(); sc != nil && sc.String() == r.Callee {
+						hit = true
+					}
+					if !hit {
+						continue
+					}
+					nsites++
+					allowed := false
+					for _, a := range r.Allowed {
+						if fn.String() == a {
+							allowed = true
+						}
+					}
+					if !allowed {
+						sites = append(sites, fn.String()+" at "+e.posStr(in.Pos()))
+					}
+				}
+			}
+		}
+		sort.Strings(sites)
+		o := &Obligation{Func: "callgraph", Kind: "callers-only", Tags: r.Tags, Clause: fmt.Sprintf("only %v may call %s (%d call sites found)", r.Allowed, r.Callee, nsites), Where: r.Where, Expect: "unsat"}
+		if len(sites) == 0 {
+			o.Query = preamble + "(assert false)\n"
+		} else {
+			o.Query = preamble + "(assert true)\n"
+			o.Clause += "; offending: " + strings.Join(sites, "; ")
+		}
+		o.ID = fmt.Sprintf("callgraph/%s/%d", shortName(r.Callee), len(e.obls)+1)
 		e.obls = append(e.obls, o)
 	}
 }
